@@ -301,7 +301,10 @@ func (c *c09) Run(ctx *RunCtx) *RunResult {
 	// boundary-sized files: pad in front so that the interesting text sits
 	// beyond the first read window of a file-backed reader
 	if t.Draw(24) == 1 {
-		target := []int{2100, 4096, 4097, 6000, 8193}[t.Draw(5)]
+		target := []int{2100, 4096, 4097, 6000, 8193, 65537}[t.Draw(6)]
+		if target > 60000 && t.Draw(4) != 1 {
+			target = 8193 // the 64 KiB case is expensive: keep it rare
+		}
 		if len(text) < target {
 			pad := make([]byte, 0, target)
 			i := uint64(0)
@@ -323,6 +326,9 @@ func (c *c09) Run(ctx *RunCtx) *RunResult {
 	simrt.Solo()
 	rand.Seed(int64(t.Draw(1 << 16)))
 	budget := growth*(200*c.steps[pi]) + 100000
+	if budget > 40000000 {
+		budget = 40000000
+	}
 	simrt.OpStart(budget)
 	v, oc := doCompile(src)
 	simrt.OpEnd()
